@@ -99,11 +99,17 @@ let dedup (terms : (mono * z) list) : (mono * z) list =
     | (k, c) :: r -> if List.exists (fun k' -> mono_eqb k k') seen then go seen r else (k, c) :: go (k :: seen) r in
   go [] terms
 
+(* every operand and every result is checked against the executable form of the theorems'
+   hypothesis poly_ok (coq/C22/MPolyWfDef.v, sound by P_poly_okb_sound.v) *)
+let wf (p : sym mpoly) : sym mpoly res =
+  if s_okb p then Ok p else failwith "not well-formed (poly_okb)"
+
 let build (s : string) : sym mpoly res =
   let (vs, ts) = parse_lit s in
-  s_from_dict vs (dedup ts)
+  match s_from_dict vs (dedup ts) with Ok p -> wf p | e -> e
 
 let show_poly (p : sym mpoly) : string =
+  if not (s_okb p) then failwith "result not well-formed (poly_okb)" else
   let vs = match p.pvars with [] -> "-" | l -> String.concat "," (List.map string_of_sym l) in
   let ts = List.map (fun (k, c) -> (List.map int_of_n k, hex_of_z c)) p.pcont.cdict in
   let ts = List.sort compare ts in
